@@ -12,7 +12,7 @@ PROPERTY = "C15"
 MS = [1, 2, 3, 10, 50]
 RULE = (
     "all ordered pairs of multisets of <= 2 points of the signed lattice {-2..2}^2, b<=d (either sign, "
-    "diagonal points, the empty (0,2) diagram) x M in {1,2,3,10,50} (and EVERY M in 1..128 / 1..512 on a cover of 55 pairs); per pair: value vs the defining "
+    "diagonal points, the empty (0,2) diagram) x M in {1,2,3,10,50} (and EVERY M in 1..128 / 1..512 on a cover of 55 pairs; every M in 1..160 / 1..700 plus large M up to 1024 / 5000 on 5 pairs of 9..250-point diagrams); per pair: value vs the defining "
     "formula in float64, symmetry, reordered rows, added diagonal points, shifts along the diagonal into "
     "negative and large coordinates, scalings, bound 2*W1; ALL triples per M from the complete table "
     "(triangle inequality). state = (P1,P2,M); transition = one persim.sliced_wasserstein call; "
@@ -179,8 +179,43 @@ def msweep(ctx, A, B, m_hi):
     shared_unchanged(ctx)
 
 
+MED_SIZES = [(5, 4), (20, 20), (40, 40), (60, 50), (150, 100)]
+
+
+def m_values(tier):
+    """Direction counts for the medium/large sweep: EVERY M up to 160 (thorough 700) and a list of large ones
+    (a blocked / chunked evaluation of the directions goes wrong only for particular (size, M))."""
+    if tier == "quick":
+        return list(range(1, 161)) + [200, 256, 257, 300, 500, 512, 1000, 1024]
+    return list(range(1, 701)) + [1000, 1024, 2048, 4096, 5000]
+
+
+def msweep_medium(ctx, n1, n2, tier):
+    import persim
+
+    A = [[p[0] - 6.0, p[1] - 6.0] for p in medium_diagram(n1, 0, False)]
+    B = [[p[0] - 5.5, p[1] - 5.5] for p in medium_diagram(n2, 1, False)]
+    a, b = farr(A), farr(B)
+    sa, sb = a.tobytes(), b.tobytes()
+    t = tol_of(A, B)
+    for M in m_values(tier):
+        ctx.state(("medium-M", n1, n2, M))
+        v = ctx.call(persim.sliced_wasserstein, a, b, M=M)
+        ref = OS.sliced_wasserstein_np(A, B, M)
+        ctx.valid()
+        if not (is_num(v) and np.isfinite(v) and abs(float(v) - ref) <= t):
+            ctx.violation("value-medium-M", "sliced_wasserstein is not the average over the M directions (%d vs %d points, M=%d)" % (n1, n2, M),
+                          observed=v if is_num(v) else repr(v), expected=ref, extra={"n1": n1, "n2": n2, "M": M})
+    ctx.valid()
+    if a.tobytes() != sa or b.tobytes() != sb:
+        ctx.violation("argument-modified", "sliced_wasserstein modified an argument array")
+    ctx.nontriv("medium_pair_all_M", key=("medium-M", n1, n2))
+
+
 def run_case(case, ctx):
     """Replay entry: one pair, or one triple."""
+    if case["kind"] == "medium-M":
+        return msweep_medium(ctx, case["n1"], case["n2"], case.get("tier", ctx.tier))
     if case["kind"] == "medium":
         return medium_pair(ctx, case["A"], case["B"])
     if case["kind"] == "msweep":
@@ -227,6 +262,10 @@ def run_shard(ctx):
             continue
         case = {"kind": "msweep", "A": cover[a], "B": cover[b], "m_hi": m_hi}
         ctx.run_case(_M, case, fn=lambda c, cx: msweep(cx, c["A"], c["B"], c["m_hi"]))
+    for jx, (n1, n2) in enumerate(MED_SIZES):
+        if (jx + 5) % ctx.nshards != ctx.shard:
+            continue
+        ctx.run_case(_M, {"kind": "medium-M", "n1": n1, "n2": n2, "tier": ctx.tier})
     # medium diagrams (6..14 points, unequal sizes, generic and lattice-rounded)
     med = [(n, k, lat) for lat in (True, False) for n in ((6, 9, 14) if ctx.tier == "quick" else (6, 7, 9, 14, 25)) for k in range(2)]
     mjobs = [(a, b) for a in range(len(med)) for b in range(len(med))]
